@@ -64,15 +64,15 @@ func sweepC17(tier string) [][]uint32 {
 
 // fakeRegion is one regional KMS node.
 type fakeRegion struct {
-	s       *simrt.Sim
-	region  string
-	arn     string
-	master  []byte
+	s                         *simrt.Sim
+	region                    string
+	arn                       string
+	master                    []byte
 	failGen, failEnc, failDec bool
-	wrongPlain bool
-	log     *[]string
-	handed  *[][]byte // plaintext data keys this node returned (retained to check wiping)
-	rnd     *simrt.Rand
+	wrongPlain                bool
+	log                       *[]string
+	handed                    *[][]byte // plaintext data keys this node returned (retained to check wiping)
+	rnd                       *simrt.Rand
 }
 
 func (f *fakeRegion) gcm() cipher.AEAD {
